@@ -54,3 +54,47 @@ Print Assumptions C08_comment_text_is_irrelevant.
 Example C08_apostrophe_in_comment :
   process_in_comment "CREATE TABLE t (a int DEFAULT 'x -- y'); -- it's done" = Ok ("CREATE TABLE t (a int DEFAULT 'x -- y'); ", [" it's done"]).
 Proof. vm_compute. reflexivity. Qed.
+
+(* ---------- trailing comments on the lines of a multi-line statement -------------------------------------------------------------------------
+   [commented_line l l' code cms] speaks about one line alone: after the '=' re-spacing it is l'; it holds no block-comment marker;
+   [code] is what stands before the first "--" outside quoted literals ([cms] the rest of the line) or the whole line; the code is
+   not empty, skipped or a SET line.  For ANY statement parser, any number of such lines and ANY comment texts: the statement is
+   handed to the parser as the line codes joined by blanks — exactly as without the comments — the comment texts are reported in
+   source order in the comments output and nowhere else, and the machine returns to its initial state. *)
+Theorem C08_statement_over_commented_lines : forall parse_stmt (body : list cline) st (last : cline) more,
+  Forall (fun c => commented_line (cl_l c) (cl_l' c) (cl_code c) (cl_cms c) /\ endswith (code_of (cl_code c)) ";" = false
+                   /\ starts_stmt (cl_code c) = false) body ->
+  commented_line (cl_l last) (cl_l' last) (cl_code last) (cl_cms last) -> endswith (code_of (cl_code last)) ";" = true ->
+  starts_stmt (cl_code last) = false ->
+  String.eqb (drop_last (joined (join_ccodes st body) (code_of (cl_code last)))) "" = false ->
+  run_lines parse_stmt (collecting st) (map cl_l body ++ [cl_l last]) more =
+  (do r <- parse_stmt (drop_last (joined (join_ccodes st body) (code_of (cl_code last))));
+   Ok (lm0, (entities_of r, (flat_map cl_cms body ++ cl_cms last)%list))).
+Proof. exact statement_over_commented_lines. Qed.
+Print Assumptions C08_statement_over_commented_lines.
+(* the first line of the statement (it begins with CREATE ...), read in the initial state *)
+Theorem C08_first_line_with_comment : forall parse_stmt l l' code cms, commented_line l l' code cms -> endswith (code_of code) ";" = false ->
+  process_line parse_stmt lm0 l true = Ok (collecting (Some (code_of code)), ([], cms)).
+Proof. intros p l l' code cms H E. exact (commented_continuation p l l' code cms None H E (or_introl eq_refl)). Qed.
+Print Assumptions C08_first_line_with_comment.
+(* two layouts with the same line codes (comments added, removed or changed at will) hand the same text to the statement parser *)
+Theorem C08_trailing_comments_over_lines_neutral : forall parse_stmt (b1 b2 : list cline) (l1 l2 : cline) st more1 more2,
+  Forall (fun c => commented_line (cl_l c) (cl_l' c) (cl_code c) (cl_cms c) /\ endswith (code_of (cl_code c)) ";" = false /\ starts_stmt (cl_code c) = false) b1 ->
+  Forall (fun c => commented_line (cl_l c) (cl_l' c) (cl_code c) (cl_cms c) /\ endswith (code_of (cl_code c)) ";" = false /\ starts_stmt (cl_code c) = false) b2 ->
+  commented_line (cl_l l1) (cl_l' l1) (cl_code l1) (cl_cms l1) -> commented_line (cl_l l2) (cl_l' l2) (cl_code l2) (cl_cms l2) ->
+  endswith (code_of (cl_code l1)) ";" = true -> starts_stmt (cl_code l1) = false ->
+  map (fun c => code_of (cl_code c)) b1 = map (fun c => code_of (cl_code c)) b2 -> code_of (cl_code l1) = code_of (cl_code l2) ->
+  String.eqb (drop_last (joined (join_ccodes st b1) (code_of (cl_code l1)))) "" = false ->
+  exists stmt,
+    run_lines parse_stmt (collecting st) (map cl_l b1 ++ [cl_l l1]) more1 = (do r <- parse_stmt stmt; Ok (lm0, (entities_of r, (flat_map cl_cms b1 ++ cl_cms l1)%list))) /\
+    run_lines parse_stmt (collecting st) (map cl_l b2 ++ [cl_l l2]) more2 = (do r <- parse_stmt stmt; Ok (lm0, (entities_of r, (flat_map cl_cms b2 ++ cl_cms l2)%list))).
+Proof. exact trailing_comments_over_lines_neutral. Qed.
+Print Assumptions C08_trailing_comments_over_lines_neutral.
+(* non-vacuity: lines of a table with a literal holding "--" and comments holding apostrophes *)
+Example C08_commented_lines_example :
+  commented_line "CREATE TABLE t ( -- it's the table" "CREATE TABLE t ( -- it's the table" "CREATE TABLE t ( " [" it's the table"] /\
+  commented_line "  a int DEFAULT 'x -- y', -- first, don't drop" "  a int DEFAULT 'x -- y', -- first, don't drop" "  a int DEFAULT 'x -- y', " [" first, don't drop"] /\
+  starts_stmt "  a int DEFAULT 'x -- y', " = false /\
+  commented_line "  b text" "  b text" "  b text" [] /\
+  commented_line "); -- done -- really" "); -- done -- really" "); " [" done -- really"] /\ endswith (code_of "); ") ";" = true.
+Proof. repeat split; try (vm_compute; reflexivity); try (right; split; vm_compute; reflexivity); try (left; repeat split; vm_compute; reflexivity). Qed.
